@@ -109,6 +109,16 @@ def attrs_read(node, selfname="self"):
 def hash_paths(fn: ast.FunctionDef):
     """-> list of (condition text or None, set of self attributes hashed, expression text)."""
     out = []
+    # `if c: return A` followed by `return B` is `return A if c else B`
+    body = [st for st in fn.body if not (isinstance(st, ast.Expr) and isinstance(st.value, ast.Constant))]
+    if len(body) == 2 and isinstance(body[0], ast.If) and not body[0].orelse and len(body[0].body) == 1 and isinstance(body[0].body[0], ast.Return) \
+            and isinstance(body[1], ast.Return) and body[0].body[0].value is not None and body[1].value is not None:
+        t, a, b = body[0].test, body[0].body[0].value, body[1].value
+        return [(ast.unparse(t), attrs_read(a), ast.unparse(a)), ("not " + ast.unparse(t), attrs_read(b), ast.unparse(b))]
+    if len(body) == 1 and isinstance(body[0], ast.If) and len(body[0].body) == 1 and len(body[0].orelse) == 1 \
+            and isinstance(body[0].body[0], ast.Return) and isinstance(body[0].orelse[0], ast.Return):
+        t, a, b = body[0].test, body[0].body[0].value, body[0].orelse[0].value
+        return [(ast.unparse(t), attrs_read(a), ast.unparse(a)), ("not " + ast.unparse(t), attrs_read(b), ast.unparse(b))]
     for r in _returns(fn):
         v = r.value
         if isinstance(v, ast.IfExp):
